@@ -59,6 +59,42 @@ CLAIMED['C07'] = dict(
    technique="Coq proof of the alphabet's content + finite sweep over all elements + extracted-reader oracle on strings over the returned alphabet + exact correspondence",
    design_ref="5/C07")
 
+CLAIMED['C03'] = dict(
+   category='translation_validation',
+   text="No round-trip theorem yet (C03_full_statement is stated in props/C03.v; proof plan in DESIGN Appendix B; proved: the index arithmetic ring distances and branch lengths rest on). The property is decided per input by certified validation: an independent SMILES reader and the predicate same_molecule are Coq definitions (spec/Reader.v, spec/RoundTrip.v), extracted, and run on the input and on the implementation's decoder(encoder(s)) - atom for atom - over re-spelt and mutated molecules and several tables; encoder and decoder models are compared with the implementation on the same inputs.",
+   technique="extracted Coq reader + same_molecule as per-input validator of the implementation's round trip; differential correspondence of the encoder model; Coq proof of the index arithmetic only",
+   design_ref="5/C03")
+CLAIMED['C04'] = dict(
+   category='translation_validation',
+   text="No universal theorem yet (C04_full_statement stated; proved: adjacent exchange flips the parity _should_invert_chirality computes). Decided per input by the extracted same_stereo (tag xor parity of the written neighbour order incl. implicit H and ring-closure digits; marks per bond end) on input vs implementation round trip, over stereo-rich re-spellings (ring digits in any order, before/after branches, marks on chain, branch and ring bonds).",
+   technique="extracted Coq stereo-parity oracle as per-input validator; differential correspondence of the encoder model; parity lemma in Coq",
+   design_ref="5/C04")
+CLAIMED['C05'] = dict(
+   text="Proof of the checker and of the refutation: the soundness statement for find_perfect_matching is FALSE of the faithful model (C05_statement_refuted, 8-node witness; known findings F-C05-*), is_perfect_matching is proved to mean 'fixed-point-free involution along edges'. Every accepted aromatic input is validated with the implementation's own answer as certificate: kekule_ok (independent pi-bond rule), has_kekule_structure (exact search) for rejections, acceptance equal across spellings of fused/bridged/cage templates incl. C60; the matching routine itself on random max-degree-3 graphs; model of kekulize / matching (CPython set order included) compared exactly.",
+   technique="Coq refutation + proved checker run on implementation outputs (certified per-input validation) + exact correspondence of the matching/kekulisation model",
+   design_ref="5/C05")
+CLAIMED['C06'] = dict(
+   text="Kernel-checked theorems (props/C06.v): the strict check raises iff some atom's bond count exceeds capacity minus explicit H; encoder(strict=False) is independent of the capacity lookup; encoder depends on the lookup only pointwise (no stale memo: C11). The parser/kekuliser invariant 'bond count = incident sum' is not proved: per input the kekulised molecule is re-read by the independent reader and judged against the table in force, and compared with the strict outcome at capacity-1/capacity/capacity+1 under presets and perturbed tables; non-strict output compared across tables.",
+   technique="Coq proof of the strict-check equivalence and table-independence + independent bond count oracle on the implementation + exact correspondence",
+   design_ref="5/C06")
+CLAIMED['C09'] = dict(
+   text="Proof (partial, props/C09.v): parse errors and kekulisation failures surface as EncoderError; the inputs named by the property (C11, F:F; crashed before the repairs) are rejected with EncoderError. Crash freedom of the whole encoder model is not proved: outcome classes of implementation and model are compared on broken / random / corner-case SMILES with all flag combinations. Two interpreter limits are known findings.",
+   technique="Coq proof (partial) + outcome-class correspondence on malformed SMILES + known-finding classifiers",
+   design_ref="5/C09")
+CLAIMED['C10'] = dict(
+   text="Proof (partial, props/C10.v): ring/branch symbols carry suffix 1..3 iff span-1 / length-1 < 16^3 and their Q symbols decode back. Per input: every emitted symbol is judged by the extracted symbol_in_grammar under the table, the decoder must accept, equivalent bracket spellings must give the same string, re-encoding the decoded SMILES must reproduce the string; atom-field extremes (every element, charges to +-100, H0-H9, isotopes with leading zeros) and spans at the 16^k boundaries.",
+   technique="Coq proof of the index-suffix facts + extracted grammar-membership oracle + metamorphic oracles on the implementation + exact correspondence",
+   design_ref="5/C10")
+CLAIMED['C17'] = dict(
+   category='translation_validation',
+   text="The model threads attribution exactly as the code does and is compared entry by entry with the implementation (both directions, multi-fragment, [nop]-padded, truncated indices); truthfulness (token found at reported output index, contributing symbol at reported input position, atom attributed to its creating symbol and enclosing branch symbols, SELFIES atom symbol attributed to its SMILES atom token) and non-interference (same string with and without attribute=True) are judged per input with independent tokenisations. Proved: the two repaired offsets (examples by vm_compute); the non-interference theorem is not proved yet.",
+   technique="exact correspondence of attribution lists with the model + independent-tokenisation oracle; Coq examples for the repaired offsets",
+   design_ref="5/C17")
+CLAIMED['C19'] = dict(
+   text="Kernel-checked theorem about the cache protocol (props/C19.v): for every schedule of atomic cache operations (lru_cache call, dict get, dict set) of any number of concurrent calls, with arbitrary evictions, a coherent cache stays coherent and every call evaluates to its serial result; the shared mutable state found in the current source by the translator equals the modelled list (a new shared cache or scratch object breaks this equality). Assumed, not modelled: atomicity of those operations under the GIL. Thread stress (8 threads, 1 us switch interval, cold caches) vs serial run vs model as supporting evidence.",
+   technique="Coq proof over an interleaving model of the cache protocol + generated shared-state footprint equality + thread stress vs serial vs model",
+   design_ref="5/C19")
+
 PENDING = {}
 for i in range(1, 20):
     pid = 'C%02d' % i
